@@ -323,7 +323,7 @@ def compare_fields(kind, fields, obj):
     return bad
 
 
-def check_name(name, acc, R, want_sample=False):
+def check_name(name, acc, R, sample_kind='-'):
     acc.evals += 1
     exp_kind, fields = oracle.classify(name)
     alts = fields.get('_alt', [])
@@ -412,6 +412,10 @@ def check_name(name, acc, R, want_sample=False):
     if starts_known(name):
         acc.nontrivial_disjoint += 1
     if exp_kind is None:
+        if sample_kind is None and starts_known(name) and \
+                len(acc.samples) < 2 and len(name) % 7 == 3:
+            acc.sample({'name': name, 'class': None, 'kind': 'rejected',
+                        'patterns accepting it': accepting})
         return
 
     # -- fields ------------------------------------------------------------
@@ -433,7 +437,8 @@ def check_name(name, acc, R, want_sample=False):
                       '%r is a %s with can_be_destination=%r' % (
                           name, cname, obj.can_be_destination),
                       {'part': 'name', 'name': name})
-    if want_sample:
+    if sample_kind == exp_kind and len(acc.samples) < 2 and \
+            len(name) % 5 == 2:
         acc.sample({'name': name, 'class': cname, 'kind': exp_kind,
                     'fields': {k: v for k, v in fields.items()
                                if not k.startswith('_')},
@@ -565,7 +570,7 @@ def check_parsed(acc, tag, branch, cls_name, version_t, src, pr, witness,
     return not bad
 
 
-def check_source(W, src, acc, want_sample=False):
+def check_source(W, src, acc, sample_dst=None):
     """All triples of one source name."""
     R, job = W.R, W.job
     wit = {'part': 'roundtrip', 'src': src, 'seed': W.seed}
@@ -664,8 +669,9 @@ def check_source(W, src, acc, want_sample=False):
                 map_back(got[i])
                 for pr in PR_IDS:
                     qi = queue_int(made[i], pr, vt, 'qw')
-                    if want_sample and sample is None and qi is not None \
-                            and i == 1:
+                    if sample_dst is not None and sample is None and \
+                            qi is not None and i == sample_dst % len(W.flow) \
+                            and pr == PR_IDS[sample_dst % 3]:
                         sample = {'source': src, 'pr': pr,
                                   'destination': dst.name,
                                   'w': got[i].name, 'q/w': qi.name,
@@ -782,7 +788,8 @@ def run_shard(spec, acc):
                 continue
             seen.add(name)
             done += 1
-            check_name(name, acc, R, want_sample=(done % 40009 == 7))
+            check_name(name, acc, R, sample_kind=(
+                oracle.KINDS + (None,) * n)[shard])
             if limit and done >= limit:
                 break
         acc.count('distinct_names', len(seen))
@@ -800,7 +807,8 @@ def run_shard(spec, acc):
             if idx % n != shard:
                 continue
             done += 1
-            check_source(W, src, acc, want_sample=(done % 5003 == 11))
+            check_source(W, src, acc, sample_dst=(
+                shard if done == 100 + 7 * shard else None))
             if limit and done * 36 >= limit:
                 break
         acc.count('sources', done)
